@@ -146,7 +146,8 @@ pub fn variant_strategy(tier: Tier, purpose: Purpose) -> BoxedStrategy<Variant> 
         onoff("datafusion.optimizer.prefer_existing_sort"),
         onoff("datafusion.optimizer.prefer_existing_union"),
         onoff("datafusion.execution.coalesce_batches"),
-        onoff("datafusion.optimizer.enable_piecewise_merge_join"),
+        // experimental operator: sampled only where its metrics are judged (its planner panics on some ON clauses)
+        if purpose == Purpose::Metrics { onoff("datafusion.optimizer.enable_piecewise_merge_join") } else { Just(None).boxed() },
         onoff("datafusion.optimizer.enable_sort_pushdown"),
         onoff("datafusion.optimizer.enable_window_topn"),
         onoff("datafusion.optimizer.use_statistics_registry"),
@@ -434,7 +435,17 @@ pub async fn plan_sql(ctx: &SessionContext, sql: &str) -> Result<Planned, Engine
     let logical = state.create_logical_plan(sql).await.map_err(|e| engine_err(&e, "logical"))?;
     let optimized = state.optimize(&logical).map_err(|e| engine_err(&e, "optimize"))?;
     let analyzed = state.analyzer().execute_and_check(logical.clone(), &state.config_options(), |_, _| {}).ok();
-    let physical = state.query_planner().create_physical_plan(&optimized, &state).await.map_err(|e| engine_err(&e, "physical"))?;
+    // a panic of the physical planner is kept apart from the panics of operators (which the engine reports itself):
+    // it is reported as an `Internal` planning error carrying the panic message, so that a property can key a known
+    // finding on it (C53: the experimental piecewise merge join planner reaches `unreachable!()`)
+    let planned = futures::FutureExt::catch_unwind(std::panic::AssertUnwindSafe(state.query_planner().create_physical_plan(&optimized, &state))).await;
+    let physical = match planned {
+        Ok(r) => r.map_err(|e| engine_err(&e, "physical"))?,
+        Err(payload) => {
+            let m = payload.downcast_ref::<&str>().map(|s| s.to_string()).or_else(|| payload.downcast_ref::<String>().cloned()).unwrap_or_else(|| "<non-string panic payload>".into());
+            return Err(EngineErr { class: ErrClass::Internal, stage: "physical-planner-panic", message: m });
+        }
+    };
     Ok(Planned { logical, analyzed, optimized, physical })
 }
 
@@ -720,7 +731,12 @@ fn judged<C: Serialize>(sub: &str, case: &C, judge: impl FnOnce() -> Judged) -> 
 
 /// Outcome-keyed signature: the case fails AND every violation found is an instance of a known finding.
 pub fn judged_signature<C: Serialize>(sub: &str, case: &C, judge: impl FnOnce() -> Judged) -> Option<String> {
-    let j = judged(sub, case, judge);
+    // the engine calls `known_signature` outside its panic guard: a panic of the code under test must surface in `run`
+    // (where the engine turns it into a violation), not here
+    let j = match std::panic::catch_unwind(std::panic::AssertUnwindSafe(|| judged(sub, case, judge))) {
+        Ok(j) => j,
+        Err(_) => return None,
+    };
     if !j.findings.is_empty() && j.findings.iter().all(|f| f.sig.is_some()) { j.findings[0].sig.clone() } else { None }
 }
 
